@@ -15,12 +15,17 @@ import (
 	"log/slog"
 	"math"
 	"math/big"
+	"os"
+	"path/filepath"
 	"strings"
 
 	"oss.terrastruct.com/d2/d2compiler"
 	"oss.terrastruct.com/d2/d2graph"
 	"oss.terrastruct.com/d2/d2layouts/d2dagrelayout"
+	"oss.terrastruct.com/d2/d2layouts/d2near"
 	"oss.terrastruct.com/d2/d2lib"
+	"oss.terrastruct.com/d2/d2parser"
+	"oss.terrastruct.com/d2/lib/geo"
 	d2log "oss.terrastruct.com/d2/lib/log"
 	"oss.terrastruct.com/d2/lib/textmeasure"
 )
@@ -105,49 +110,80 @@ type c24Near struct {
 	LW, LH   int
 }
 
+// c24ConstNearAbove returns the constant near obj is or lives in, c24ObjNearAbove the closest
+// shape-near (near: <another shape>) it is or lives in.
+func c24ConstNearAbove(g *d2graph.Graph, o *d2graph.Object) bool {
+	for ; o != nil; o = o.Parent {
+		if o.NearKey != nil && o.Parent == g.Root && o.IsConstantNear() {
+			return true
+		}
+	}
+	return false
+}
+
+func c24MainTerm(ctor string, o *d2graph.Object) string {
+	return fmt.Sprintf("%s %s %s %s %s %s", ctor, c24Box(o), coqBool(o.Label.Value != ""), c24LP(o),
+		c24Q(float64(o.LabelDimensions.Width)), c24Q(float64(o.LabelDimensions.Height)))
+}
+
+type c24Obs struct {
+	coq               string
+	nears             []c24Near
+	nMain, nPts       int
+	nObjNear, nXPts   int
+	fail              string
+}
+
 // c24Observe projects the laid-out graph to the Coq case.
-func c24Observe(g *d2graph.Graph) (coq string, nears []c24Near, nMain, nPts int, fail string) {
-	var mains, pts, ns []string
+func c24Observe(g *d2graph.Graph) (ob c24Obs) {
+	var mains, pts, xpts, ns []string
 	for _, o := range g.Objects {
 		if !c24Finite(o.TopLeft.X, o.TopLeft.Y, o.Width, o.Height) {
-			fail = "non-finite geometry on " + o.AbsID()
+			ob.fail = "non-finite geometry on " + o.AbsID()
 		}
-		if o.NearKey != nil {
+		if o.NearKey != nil && o.Parent == g.Root && o.IsConstantNear() {
 			key := d2graph.Key(o.NearKey)[0]
-			ctor, isConst := c24KeyCtor[key]
-			if !isConst || !o.IsConstantNear() || o.Parent != g.Root {
-				mains = append(mains, "GOther")
-				continue
-			}
 			lp := ""
 			if o.LabelPosition != nil {
 				lp = *o.LabelPosition
 			}
-			nears = append(nears, c24Near{o.AbsID(), key, o.TopLeft.X, o.TopLeft.Y, o.Width, o.Height, lp, o.LabelDimensions.Width, o.LabelDimensions.Height})
-			ns = append(ns, fmt.Sprintf("(mknear %s %s %s %s %s %s, (%s, %s))", ctor, c24Q(o.Width), c24Q(o.Height), c24LP(o),
+			ob.nears = append(ob.nears, c24Near{o.AbsID(), key, o.TopLeft.X, o.TopLeft.Y, o.Width, o.Height, lp, o.LabelDimensions.Width, o.LabelDimensions.Height})
+			ns = append(ns, fmt.Sprintf("(mknear %s %s %s %s %s %s, (%s, %s))", c24KeyCtor[key], c24Q(o.Width), c24Q(o.Height), c24LP(o),
 				c24Q(float64(o.LabelDimensions.Width)), c24Q(float64(o.LabelDimensions.Height)), c24Q(o.TopLeft.X), c24Q(o.TopLeft.Y)))
 			continue
 		}
-		if o.OuterNearContainer() != nil {
-			continue // lives in a near's own graph: never in g.Objects before its near has been placed, skipped afterwards
+		if c24ConstNearAbove(g, o) {
+			continue // lives in a constant near's own graph: never in g.Objects before its near has been placed, skipped afterwards
 		}
-		nMain++
-		mains = append(mains, fmt.Sprintf("GMain %s %s %s %s %s", c24Box(o), coqBool(o.Label.Value != ""), c24LP(o),
-			c24Q(float64(o.LabelDimensions.Width)), c24Q(float64(o.LabelDimensions.Height))))
-	}
-	for _, e := range g.Edges {
-		if e.Src.OuterNearContainer() != nil || e.Dst.OuterNearContainer() != nil {
+		if o.OuterNearContainer() != nil {
+			// near: <another shape> on it or on a container above it: a shape of the main diagram that boundingBox skips
+			ob.nObjNear++
+			mains = append(mains, c24MainTerm("GObjNear", o))
 			continue
 		}
+		ob.nMain++
+		mains = append(mains, c24MainTerm("GMain", o))
+	}
+	for _, e := range g.Edges {
+		if c24ConstNearAbove(g, e.Src) || c24ConstNearAbove(g, e.Dst) {
+			continue
+		}
+		skipped := e.Src.OuterNearContainer() != nil || e.Dst.OuterNearContainer() != nil
 		for _, p := range e.Route {
 			if !c24Finite(p.X, p.Y) {
-				fail = "non-finite route point"
+				ob.fail = "non-finite route point"
 			}
-			pts = append(pts, fmt.Sprintf("(%s, %s)", c24Q(p.X), c24Q(p.Y)))
-			nPts++
+			t := fmt.Sprintf("(%s, %s)", c24Q(p.X), c24Q(p.Y))
+			if skipped {
+				xpts = append(xpts, t)
+				ob.nXPts++
+			} else {
+				pts = append(pts, t)
+				ob.nPts++
+			}
 		}
 	}
-	coq = fmt.Sprintf("Case %s %s %s", coqList(mains), coqList(pts), coqList(ns))
+	ob.coq = fmt.Sprintf("Case %s %s %s %s", coqList(mains), coqList(pts), coqList(xpts), coqList(ns))
 	return
 }
 
@@ -338,6 +374,41 @@ func c24Corpus() []string {
 	return out
 }
 
+// c24KFObjNear: signature of the known finding -- the main diagram contains a shape whose `near` is another
+// shape (or a descendant of one); boundingBox leaves it out.
+const c24KFObjNear = "C24-object-near-ignored"
+
+// The cases of that class are generated only once the finding is listed in known_findings.json (next to
+// build/), so that the check of the unchanged tree is green before and after the integrator lists it.
+func c24FindingListed() bool {
+	exe, err := os.Executable()
+	if err != nil {
+		return false
+	}
+	b, err := os.ReadFile(filepath.Join(filepath.Dir(filepath.Dir(exe)), "known_findings.json"))
+	return err == nil && strings.Contains(string(b), c24KFObjNear)
+}
+
+func c24ObjNearScripts(r *Rng, k int) []string {
+	out := []string{
+		"b\na: {near: b; width: 800; height: 400}\nr: R {near: bottom-right}\n",
+		"b -> c\na: {near: c; width: 600}\nl: L {near: center-right}\nt: T {near: top-center}\n",
+		"b -> c\nbox: {near: b; x -> y -> z}\nt: T {near: bottom-left}\nbox.x -> c\n",
+	}
+	for len(out) < k {
+		sc, _ := c24Script(r.Fork())
+		sc += fmt.Sprintf("anchor\nsat: satellite {near: anchor; width: %d; height: %d}\n", r.Range(50, 900), r.Range(50, 900))
+		if r.Bool() {
+			sc += "sat -> anchor\n"
+		}
+		if _, _, err := d2compiler.Compile("", strings.NewReader(sc), nil); err != nil {
+			continue
+		}
+		out = append(out, sc)
+	}
+	return out
+}
+
 func c24Gen(r *Rng, tier string, n int) []Case {
 	var out []Case
 	type in struct{ script, class string }
@@ -345,7 +416,13 @@ func c24Gen(r *Rng, tier string, n int) []Case {
 	for _, s := range c24Corpus() {
 		list = append(list, in{s, "corpus"})
 	}
-	for len(list) < n {
+	nSyn := n / 3
+	if c24FindingListed() {
+		for _, s := range c24ObjNearScripts(r.Fork(), 8) {
+			list = append(list, in{s, "object-near"})
+		}
+	}
+	for len(list) < n-nSyn {
 		s, cl := c24Script(r.Fork())
 		// scripts the compiler rejects (self-edge on a grid, circle with w != h, ...) are not inputs of the layout
 		if _, _, err := d2compiler.Compile("", strings.NewReader(s), nil); err != nil {
@@ -358,19 +435,244 @@ func c24Gen(r *Rng, tier string, n int) []Case {
 		g, fail := c24Layout(c.script)
 		if fail != "" {
 			cs.ImplFail = []string{fail}
-			cs.Coq = "Case [] [] []"
+			cs.Coq = "Case [] [] [] []"
 			out = append(out, cs)
 			continue
 		}
-		coq, nears, nMain, nPts, fail := c24Observe(g)
-		if fail != "" {
-			cs.ImplFail = []string{fail}
+		ob := c24Observe(g)
+		if ob.fail != "" {
+			cs.ImplFail = []string{ob.fail}
 		}
-		cs.Coq = coq
-		cs.Impl = map[string]any{"nears": nears, "main_objects": nMain, "route_points": nPts}
-		cs.Nontrivial = nMain > 0 && len(nears) > 0
+		cs.Coq = ob.coq
+		cs.Impl = map[string]any{"nears": ob.nears, "main_objects": ob.nMain, "route_points": ob.nPts, "shape_near_objects": ob.nObjNear}
+		cs.Nontrivial = ob.nMain > 0 && len(ob.nears) > 0
 		cs.Key = c.script
+		if ob.nObjNear > 0 {
+			cs.KF = []string{c24KFObjNear}
+		}
 		out = append(out, cs)
 	}
+	for i := 0; i < nSyn; i++ {
+		out = append(out, c24Synthetic(r.Fork(), i))
+	}
 	return out
+}
+
+// ---- synthetic graphs straight into the public d2near.Layout ----
+//
+// Hand-built d2graph.Graphs: boxes with non-integral (dyadic) coordinates, zero / huge sizes, every
+// label-position string incl. ill-formed ones, route points, containers as nears with children and inner
+// edges.  The main graph and one temp graph per near are passed to d2near.Layout exactly as LayoutNested does.
+
+var c24LPStrings = []string{"OUTSIDE_TOP_LEFT", "OUTSIDE_TOP_CENTER", "OUTSIDE_TOP_RIGHT", "OUTSIDE_LEFT_TOP", "OUTSIDE_LEFT_MIDDLE", "OUTSIDE_LEFT_BOTTOM",
+	"OUTSIDE_RIGHT_TOP", "OUTSIDE_RIGHT_MIDDLE", "OUTSIDE_RIGHT_BOTTOM", "OUTSIDE_BOTTOM_LEFT", "OUTSIDE_BOTTOM_CENTER", "OUTSIDE_BOTTOM_RIGHT",
+	"INSIDE_TOP_LEFT", "INSIDE_TOP_CENTER", "INSIDE_TOP_RIGHT", "INSIDE_MIDDLE_LEFT", "INSIDE_MIDDLE_CENTER", "INSIDE_MIDDLE_RIGHT",
+	"INSIDE_BOTTOM_LEFT", "INSIDE_BOTTOM_CENTER", "INSIDE_BOTTOM_RIGHT",
+	"BORDER_TOP_LEFT", "BORDER_TOP_CENTER", "BORDER_TOP_RIGHT", "BORDER_LEFT_TOP", "BORDER_LEFT_MIDDLE", "BORDER_LEFT_BOTTOM",
+	"BORDER_RIGHT_TOP", "BORDER_RIGHT_MIDDLE", "BORDER_RIGHT_BOTTOM", "BORDER_BOTTOM_LEFT", "BORDER_BOTTOM_CENTER", "BORDER_BOTTOM_RIGHT",
+	"UNLOCKED_TOP", "UNLOCKED_MIDDLE", "UNLOCKED_BOTTOM",
+	// not produced by d2 itself; they exercise FromString's default and the order of the Contains chain
+	"", "OUTSIDE", "outside_top_left", "OUTSIDE_TOP_LEFT ", "X_BOTTOM__TOP_", "_LEFT__RIGHT_", "_RIGHT__LEFT_", "OUTSIDE_TOP_INSIDE", "_BOTTOM_"}
+
+func c24Coord(r *Rng) float64 {
+	switch r.Intn(12) {
+	case 0:
+		return 0
+	case 1:
+		return float64(r.Range(-40000, 40000)) * 1024
+	case 2:
+		return float64(r.Range(-1000000, 1000000)) / 1048576
+	default:
+		return float64(r.Range(-16000, 16000)) / 8
+	}
+}
+
+func c24Size(r *Rng) float64 {
+	switch r.Intn(12) {
+	case 0:
+		return 0
+	case 1:
+		return float64(r.Range(1, 4000)) * 4096
+	case 2:
+		return float64(r.Range(1, 100000)) / 65536
+	default:
+		return float64(r.Range(1, 4800)) / 4
+	}
+}
+
+func c24SynObj(g *d2graph.Graph, parent *d2graph.Object, id string, r *Rng) *d2graph.Object {
+	o := &d2graph.Object{Graph: g, Parent: parent, ID: id, IDVal: id, Children: map[string]*d2graph.Object{},
+		Box: geo.NewBox(geo.NewPoint(c24Coord(r), c24Coord(r)), c24Size(r), c24Size(r))}
+	if r.Chance(0.8) {
+		o.Label.Value = "L" + id
+	}
+	if r.Chance(0.8) {
+		lp := r.Pick(c24LPStrings)
+		o.LabelPosition = &lp
+	}
+	o.LabelDimensions.Width, o.LabelDimensions.Height = r.Range(0, 300), r.Range(0, 90)
+	if r.Chance(0.1) {
+		o.LabelDimensions.Width, o.LabelDimensions.Height = 0, 0
+	}
+	if parent != nil {
+		if parent.Children == nil {
+			parent.Children = map[string]*d2graph.Object{}
+		}
+		parent.Children[strings.ToLower(id)] = o
+		parent.ChildrenArray = append(parent.ChildrenArray, o)
+	}
+	g.Objects = append(g.Objects, o)
+	return o
+}
+
+func c24Route(r *Rng) []*geo.Point {
+	var pts []*geo.Point
+	for i, k := 0, r.Range(0, 4); i < k; i++ {
+		pts = append(pts, geo.NewPoint(c24Coord(r), c24Coord(r)))
+	}
+	return pts
+}
+
+func c24Synthetic(r *Rng, idx int) (cs Case) {
+	cs = Case{Class: "synthetic"}
+	defer func() {
+		if e := recover(); e != nil {
+			cs.ImplFail = append(cs.ImplFail, fmt.Sprintf("panic: %v", e))
+			if cs.Coq == "" {
+				cs.Coq = "Case [] [] [] []"
+			}
+		}
+	}()
+	g := d2graph.NewGraph()
+	nMain := r.Intn(7)
+	if idx%9 == 0 {
+		nMain = 0
+	}
+	listed := c24FindingListed()
+	var mains []*d2graph.Object
+	for i := 0; i < nMain; i++ {
+		parent := g.Root
+		if len(mains) > 0 && r.Chance(0.3) {
+			parent = mains[r.Intn(len(mains))]
+		}
+		o := c24SynObj(g, parent, fmt.Sprintf("m%d", i), r)
+		if listed && i > 0 && r.Chance(0.12) {
+			o.NearKey, _ = d2parser.ParseKey("m0") // near: <another shape>
+		}
+		mains = append(mains, o)
+	}
+	for i, k := 0, r.Intn(4); i < k && len(mains) > 0; i++ {
+		e := &d2graph.Edge{Src: mains[r.Intn(len(mains))], Dst: mains[r.Intn(len(mains))]}
+		if r.Chance(0.9) {
+			e.Route = c24Route(r)
+		}
+		g.Edges = append(g.Edges, e)
+	}
+	// what boundingBox is to see, written down BEFORE the call
+	var mainT, ptT, xptT []string
+	nObjNear := 0
+	for _, o := range g.Objects {
+		if o.OuterNearContainer() != nil {
+			mainT = append(mainT, c24MainTerm("GObjNear", o))
+			nObjNear++
+		} else {
+			mainT = append(mainT, c24MainTerm("GMain", o))
+		}
+	}
+	for _, e := range g.Edges {
+		skipped := e.Src.OuterNearContainer() != nil || e.Dst.OuterNearContainer() != nil
+		for _, p := range e.Route {
+			t := fmt.Sprintf("(%s, %s)", c24Q(p.X), c24Q(p.Y))
+			if skipped {
+				xptT = append(xptT, t)
+			} else {
+				ptT = append(ptT, t)
+			}
+		}
+	}
+	// the nears, each in its own graph like ExtractSubgraph(curr, true) leaves them
+	type nearRec struct {
+		o        *d2graph.Object
+		kids     []*d2graph.Object
+		route    []*geo.Point
+		ox, oy   float64
+		kx, ky   []float64
+		rx, ry   []float64
+	}
+	var temps []*d2graph.Graph
+	var recs []*nearRec
+	nNear := r.Range(1, 8)
+	var readable []map[string]any
+	for i := 0; i < nNear; i++ {
+		tg := d2graph.NewGraph()
+		key := r.Pick(c24Keys)
+		o := c24SynObj(tg, nil, fmt.Sprintf("n%d", i), r)
+		o.Parent = tg.Root
+		tg.Root.ChildrenArray = []*d2graph.Object{o}
+		tg.Root.Children[o.ID] = o
+		o.NearKey, _ = d2parser.ParseKey(key)
+		rec := &nearRec{o: o, ox: o.TopLeft.X, oy: o.TopLeft.Y}
+		for j, k := 0, r.Intn(3); j < k; j++ {
+			c := c24SynObj(tg, o, fmt.Sprintf("c%d", j), r)
+			rec.kids = append(rec.kids, c)
+			rec.kx, rec.ky = append(rec.kx, c.TopLeft.X), append(rec.ky, c.TopLeft.Y)
+		}
+		if len(rec.kids) > 1 {
+			e := &d2graph.Edge{Src: rec.kids[0], Dst: rec.kids[1], Route: c24Route(r)}
+			tg.Edges = append(tg.Edges, e)
+			rec.route = e.Route
+			for _, p := range e.Route {
+				rec.rx, rec.ry = append(rec.rx, p.X), append(rec.ry, p.Y)
+			}
+		}
+		temps = append(temps, tg)
+		recs = append(recs, rec)
+	}
+	ctx := d2log.With(context.Background(), slog.New(slog.NewTextHandler(io.Discard, nil)))
+	if err := d2near.Layout(ctx, g, temps); err != nil {
+		cs.ImplFail = append(cs.ImplFail, "d2near.Layout error: "+err.Error())
+	}
+	var nearT []string
+	for _, rec := range recs {
+		o := rec.o
+		if !c24Finite(o.TopLeft.X, o.TopLeft.Y) {
+			cs.ImplFail = append(cs.ImplFail, "non-finite near position")
+		}
+		key := d2graph.Key(o.NearKey)[0]
+		nearT = append(nearT, fmt.Sprintf("(mknear %s %s %s %s %s %s, (%s, %s))", c24KeyCtor[key], c24Q(o.Width), c24Q(o.Height), c24LP(o),
+			c24Q(float64(o.LabelDimensions.Width)), c24Q(float64(o.LabelDimensions.Height)), c24Q(o.TopLeft.X), c24Q(o.TopLeft.Y)))
+		readable = append(readable, map[string]any{"key": key, "w": o.Width, "h": o.Height, "x": o.TopLeft.X, "y": o.TopLeft.Y})
+		// the contents of a near move with it
+		dx, dy := o.TopLeft.X-rec.ox, o.TopLeft.Y-rec.oy
+		for j, c := range rec.kids {
+			if math.Abs(c.TopLeft.X-(rec.kx[j]+dx)) > 1e-6*(1+math.Abs(dx)) || math.Abs(c.TopLeft.Y-(rec.ky[j]+dy)) > 1e-6*(1+math.Abs(dy)) {
+				cs.ImplFail = append(cs.ImplFail, "child of a near not moved with it")
+			}
+		}
+		for j, p := range rec.route {
+			if math.Abs(p.X-(rec.rx[j]+dx)) > 1e-6*(1+math.Abs(dx)) || math.Abs(p.Y-(rec.ry[j]+dy)) > 1e-6*(1+math.Abs(dy)) {
+				cs.ImplFail = append(cs.ImplFail, "inner route of a near not moved with it")
+			}
+		}
+		if o.Parent != g.Root {
+			cs.ImplFail = append(cs.ImplFail, "near not re-parented to the root")
+		}
+	}
+	// every near graph's objects were appended to g.Objects
+	want := nMain
+	for _, tg := range temps {
+		want += len(tg.Objects)
+	}
+	if len(g.Objects) != want {
+		cs.ImplFail = append(cs.ImplFail, fmt.Sprintf("g.Objects has %d entries, want %d", len(g.Objects), want))
+	}
+	cs.Coq = fmt.Sprintf("Case %s %s %s %s", coqList(mainT), coqList(ptT), coqList(xptT), coqList(nearT))
+	cs.Input = map[string]any{"synthetic": idx, "main_objects": nMain, "nears": nNear}
+	cs.Impl = map[string]any{"nears": readable}
+	cs.Nontrivial = nMain-nObjNear > 0
+	cs.Key = cs.Coq
+	if nObjNear > 0 {
+		cs.KF = []string{c24KFObjNear}
+	}
+	return cs
 }
